@@ -2,6 +2,7 @@
 From Coq Require Import List Ascii Arith Lia Bool.
 Import ListNotations.
 From SP Require Import Comb Splitter Components.
+From SP Require Readers.
 From SP Require Import Skel Gen ExpectedCones.
 Notation length := List.length.
 
@@ -60,6 +61,26 @@ Proof. intros c r. split; [reflexivity|]. unfold concat_out. simpl. now rewrite 
 Theorem C19_concat : forall a b : list (list nat), concat_out (a ++ b) = concat_out a ++ concat_out b.
 Proof. exact Components.concat_out_app. Qed.
 
+(* FileToParamsReader and CommandToParams hand what they read to bufio.Scanner / ScanLines (`reader_lines` = `lines_of`, the
+   executable model the C19 check runs against both components) and emit one parameter per token: exactly the lines, in order *)
+Theorem C19_reader_emits_the_lines : forall ls : list (list byte),
+  Forall Readers.no_lf ls -> Forall Readers.no_trailing_cr ls ->
+  reader_lines (concat (map (fun l => l ++ [LF]) ls)) = ls.
+Proof. exact Readers.reader_emits_the_lines. Qed.
+
+Theorem C19_reader_unterminated_last_line : forall (ls : list (list byte)) (last : list byte),
+  Forall Readers.no_lf ls -> Forall Readers.no_trailing_cr ls -> Readers.no_lf last -> Readers.no_trailing_cr last -> last <> [] ->
+  reader_lines (concat (map (fun l => l ++ [LF]) ls) ++ last) = ls ++ [last].
+Proof. exact Readers.reader_emits_an_unterminated_last_line. Qed.
+
+(* a command that prints nothing, an empty parameter file: no parameter at all (not one empty value) *)
+Theorem C19_reader_of_nothing_emits_nothing : reader_lines [] = [].
+Proof. exact Readers.reader_of_nothing_emits_nothing. Qed.
+
+(* blank lines are items: neither dropped nor merged *)
+Theorem C19_reader_keeps_blank_lines : reader_lines [97; LF; LF; 98; LF] = [[97]; []; [98]].
+Proof. exact Readers.reader_keeps_blank_lines. Qed.
+
 (* T1, call cones: every function of scipipe that the functions this property's models stand for can reach (calls and
    function values, interface calls resolved to every implementation) is one the models were compared with -- a helper that
    is new to the cone, or a new call of an old one, changes a list (regenerated from /repo on every run; ExpectedCones.v
@@ -89,3 +110,7 @@ Print Assumptions C19_split_bound.
 Print Assumptions C19_split_example.
 Print Assumptions C19_concat.
 Print Assumptions C19_cone_conforms.
+Print Assumptions C19_reader_emits_the_lines.
+Print Assumptions C19_reader_unterminated_last_line.
+Print Assumptions C19_reader_of_nothing_emits_nothing.
+Print Assumptions C19_reader_keeps_blank_lines.
